@@ -108,10 +108,10 @@ pub fn record_c06(a: &Args) -> usize {
     // tall and wide pages with the full projection
     sizes.extend_from_slice(&[(2, 2050), (1, 2049), (3, 300), (300, 3), (1, 257 * 8)]);
     // huge pages with the sparse projection
-    let huge: Vec<(u32, u32)> = if thorough { vec![(1, 16_777_217), (2, 1 << 20), (3, 70_000), (70_000, 9), (1, 1 << 24), (2, 16_777_217)] } else { vec![(1, 16_777_217), (2, 70_001), (40_000, 9)] };
+    let huge: Vec<(u32, u32)> = if thorough { vec![(1, 16_777_217), (2, 1 << 20), (3, 70_000), (70_000, 9), (1, 1 << 24), (2, 16_777_217), (40_000, 110_000)] } else { vec![(1, 16_777_217), (2, 70_001), (40_000, 9), (70_000, 7)] };
     for (w, h) in huge {
         out.balance();
-        record_sparse(&mut out, &mut rng, w, h, if thorough { 60 } else { 24 });
+        record_sparse(&mut out, &mut rng, w, h, if (w as u64) * (h as u64) > (1 << 31) { 8 } else if thorough { 60 } else { 24 });
     }
     let ops_per = if thorough { 120 } else { 40 };
     for (k, (w, h)) in sizes.iter().enumerate() {
